@@ -18,4 +18,9 @@ export CARGO_NET_OFFLINE=true
 if ! cargo build --profile verif -p checks --bin "$bin" -q 2> "$sc/build.log"; then
   echo "BUILD-FAILED (scratch) property=$id"; tail -40 "$sc/build.log"; exit 2
 fi
+if [ "$bin" = c01 ]; then
+  if ! cargo build --profile verif -p checks --bin c01old --features old -q 2> "$sc/build.log"; then
+    echo "BUILD-FAILED (scratch) property=$id sub-run c01old"; tail -40 "$sc/build.log"; exit 2
+  fi
+fi
 VERIF_ROOT="$sc" "$sc/target/verif/$bin" "$@"
